@@ -92,6 +92,28 @@ CHECKS = {
              "and the first text is also compared with the specification's.",
         note="Token-level in TLC; byte-level fidelity of the string encoder against the scanner is checked in the C03 model and by the "
              "replayed real round trip. A NULL string assigned through the API has no spelling in the language and is excluded."),
+    "C02": dict(
+        cat="model_checking", ref="7/C02",
+        text="Lexer.tla models every flex rule of lexer.l as a match-length operator with flex's selection (longest match, first rule "
+             "on ties, default rule = echo to stdout). TLC enumerates every byte string up to the bound over the class representatives "
+             "of each start condition and checks totality (the default rule is never taken: nothing is echoed), progress (every step "
+             "consumes input, so the scan terminates) and that scanner+parser composed return a verdict. All strings are replayed "
+             "under ASan/UBSan with stdout captured, followed by print, a second parse and free on the same context. The parser "
+             "model's error behaviours (every cut/corruption of every short text) and ~560 parametric stress instances (10^5-deep "
+             "nesting, 10^5..10^6-byte tokens in every lexical form, huge lists, directories / missing files / self-include as targets, "
+             "every unterminated construct, every single byte) complete the check.",
+        note="Memory safety is the sanitizers' verdict on the explored inputs, not TLC's; no coverage-guided mutation (different technique "
+             "family); bounded string length over byte-class representatives (one concrete byte per class, plus a seeded second member for the 'plain' class)."),
+    "C03": dict(
+        cat="model_checking", ref="7/C03",
+        text="LexRef in Lexer.tla is the declarative reading of the statement (escape table, maximal digit run = 1-3 octal digits <= 0xFF, "
+             "1-2 hex digits, continuation lines, ${NAME} / ${NAME:-default} in unquoted and double-quoted context only, unterminated "
+             "single-quoted strings rejected). TLC checks on every literal up to the bound that the rule-level machine (overlapping flex "
+             "rules under longest match) decodes exactly that, that '$' is inert inside single quotes and that comment bodies never "
+             "yield a value. Each literal is replayed as 's=<literal>' with the environment realised by setenv/unsetenv and the value "
+             "of s compared byte for byte.",
+        note="Bounded literal length over class representatives; NUL escapes and unterminated double-quoted strings / comments are outside the "
+             "statement (both outcomes tolerated, no trace may be left: see C08)."),
 }
 
 PENDING = {
